@@ -1,28 +1,41 @@
-//! C07: the async API against the sync API. Every operation of a case is executed twice — through the synchronous
-//! methods on a `MemoryStore` and through the `async_*` methods on an `AsyncObjectStore<InMemory>` opened from the
-//! same metadata — and the two outcomes are compared; the line's outcome is the common outcome, or
-//! `MISMATCH sync=… async=…`.  `keys` compares the key sets, `contents` every element read back through a fresh
-//! synchronous handle over each store.  Hierarchy queries (`c07 hcfg` / `c07 hop`) run the sync form (through the
-//! async-to-sync adapter) and the async form on one object store.
+//! C07: the async API against the sync API. Every operation of a case is executed through the synchronous methods on a
+//! `MemoryStore` and through the `async_*` methods on several ASYNC FLAVOURS opened from the same metadata, each over its
+//! own `MemoryStore`: `imm` (an adapter whose futures complete immediately) and `lat<seed>` (`c08::LatencyStore`: every
+//! store operation suspends for a deterministic, key- and operation-dependent number of scheduler yields, so that
+//! concurrently issued futures take effect and complete out of issue order on the current-thread runtime). All outcomes
+//! are compared; the line's outcome is the common outcome, or `MISMATCH sync=… async[<flavour>]=…`.  `keys` compares the
+//! key sets, `contents` every element read back through a fresh synchronous handle over each store.  Verbs that compare
+//! raw bytes (`enc_chunk`, `enc_chunks`, `store_metadata`) run the synchronous form over the flavour's own `MemoryStore`
+//! (the same store contents) and report only what the model predicts (presence).  Hierarchy queries and metadata
+//! mutations (`c07 hcfg` / `c07 hop`) run the sync form (through the async-to-sync adapter) and the async form on one store.
 use crate::arr::*;
-use crate::c08::{rt, DynStore};
+use crate::c08::{rt, DynStore, LatencyStore};
 use crate::util::*;
 use std::collections::BTreeMap;
 use std::sync::Arc;
-use zarrs::array::{Array, ArrayMetadata};
+use zarrs::array::codec::{
+    ArrayPartialEncoderTraits, ArrayToBytesCodecTraits, AsyncArrayPartialEncoderTraits, AsyncBytesPartialEncoderTraits,
+    AsyncStoragePartialDecoder, CodecError, CodecOptions,
+};
+use zarrs::array::{Array, ArrayBytes, ArrayMetadata, ArrayMetadataOptions};
 use zarrs::array_subset::ArraySubset;
+use zarrs::config::MetadataEraseVersion;
 use zarrs::group::{Group, GroupMetadata, GroupMetadataV3};
 use zarrs::node::{Node, NodeMetadata, NodePath};
 use zarrs::storage::storage_adapter::async_to_sync::AsyncToSyncStorageAdapter;
-use zarrs::storage::{AsyncReadableWritableListableStorage, StoreKey};
+use zarrs::storage::store::MemoryStore;
+use zarrs::storage::{AsyncReadableStorage, AsyncReadableWritableListableStorage, StoreKey};
 
 type AStore = AsyncReadableWritableListableStorage;
 type AArr = Array<dyn zarrs::storage::AsyncReadableWritableListableStorageTraits>;
 
-pub struct C07Ctx { pub sync: ArrCtx, pub astore: AStore, pub aarr: Arc<AArr>, pub rt: tokio::runtime::Runtime }
+/// one asynchronous route to the array: the async store, its `MemoryStore`, the async handle and a synchronous handle
+/// over the same `MemoryStore`
+pub struct Flavour { pub name: String, pub astore: AStore, pub aread: AsyncReadableStorage, pub inner: Arc<MemoryStore>, pub aarr: Arc<AArr>, pub sarr: Arc<Arr> }
+pub struct C07Ctx { pub sync: ArrCtx, pub fl: Vec<Flavour>, pub rt: tokio::runtime::Runtime, pub dtype: String, pub last_meta: Option<Vec<u8>> }
 
-/// an async store with exactly the semantics of `MemoryStore`, so that only the API layers differ
-pub struct AsyncMem(pub zarrs::storage::store::MemoryStore);
+/// an async store with exactly the semantics of `MemoryStore` whose futures are always ready, so that only the API layers differ
+pub struct AsyncMem(pub Arc<MemoryStore>);
 use zarrs::storage::{byte_range::ByteRange, AsyncBytes, StorageError, StoreKeyOffsetValue, StoreKeys, StoreKeysPrefixes, StorePrefix};
 use zarrs::storage::{ListableStorageTraits, ReadableStorageTraits, WritableStorageTraits};
 #[async_trait::async_trait]
@@ -47,33 +60,126 @@ impl zarrs::storage::AsyncListableStorageTraits for AsyncMem {
     async fn size_prefix(&self, prefix: &StorePrefix) -> Result<u64, StorageError> { self.0.size_prefix(prefix) }
 }
 
-fn new_astore() -> AStore { Arc::new(AsyncMem(zarrs::storage::store::MemoryStore::new())) }
+/// `None`: the immediate adapter; `Some(seed)`: the latency store
+fn new_astore(lat: Option<u64>) -> (AStore, AsyncReadableStorage, Arc<MemoryStore>) {
+    match lat {
+        None => { let inner = Arc::new(MemoryStore::new()); let s = Arc::new(AsyncMem(inner.clone())); (s.clone(), s, inner) }
+        Some(seed) => { let s = Arc::new(LatencyStore::new(seed)); let inner = s.inner.clone(); (s.clone(), s, inner) }
+    }
+}
 fn new_rt() -> tokio::runtime::Runtime { tokio::runtime::Builder::new_current_thread().enable_all().build().unwrap() }
+fn parse_lats(m: &BTreeMap<String, String>) -> Vec<Option<u64>> {
+    let mut v = vec![None];
+    if let Some(s) = m.get("lat") { for t in s.split(',') { if let Ok(x) = t.parse::<u64>() { v.push(Some(x)); } } }
+    v
+}
 
+/// `Err("MISMATCH …")`: `Array::open` and `Array::async_open` disagree on whether the stored metadata opens
 pub fn open_cfg(m: &BTreeMap<String, String>) -> Result<C07Ctx, String> {
-    let sync = open_ctx(m)?;
-    let astore = new_astore();
+    let sync = guarded_res(|| open_ctx(m));
     let rt = new_rt();
     let path = m["path"].clone();
     let meta = unhex(&m["meta"]);
-    let aarr = rt.block_on(async {
-        astore.set(&meta_key(&path), meta.into()).await.map_err(|e| e.to_string())?;
-        Array::async_open(astore.clone(), &path).await.map_err(|e| format!("async open: {}", e))
-    })?;
-    Ok(C07Ctx { sync, astore, aarr: Arc::new(aarr), rt })
+    let mut fl = vec![];
+    for lat in parse_lats(m) {
+        let (astore, aread, inner) = new_astore(lat);
+        let aarr = guarded_res(|| rt.block_on(async {
+            astore.set(&meta_key(&path), meta.clone().into()).await.map_err(|e| e.to_string())?;
+            Array::async_open(astore.clone(), &path).await.map_err(|e| format!("async open: {}", e))
+        }));
+        if sync.is_ok() != aarr.is_ok() { return Err(format!("MISMATCH sync-open={} async-open={}", sync.is_ok(), aarr.is_ok())); }
+        if sync.is_err() { continue; }
+        let aarr = aarr?;
+        let d: DynStore = inner.clone();
+        let sarr = Array::open(d, &path).map_err(|e| format!("open over the async side's store: {}", e))?;
+        fl.push(Flavour { name: match lat { None => "imm".into(), Some(x) => format!("lat{}", x) }, astore, aread, inner, aarr: Arc::new(aarr), sarr: Arc::new(sarr) });
+    }
+    let sync = sync?;
+    Ok(C07Ctx { sync, fl, rt, dtype: m.get("dtype").cloned().unwrap_or_default(), last_meta: None })
 }
 
 fn ru<E: std::fmt::Display>(r: Result<(), E>) -> String { match r { Ok(()) => "ok".into(), Err(_) => "err".into() } }
 fn rv<E: std::fmt::Display>(es: Option<usize>, r: Result<zarrs::array::ArrayBytes<'_>, E>) -> String {
     match r { Ok(b) => format!("val {}", show_elems(&from_array_bytes(es, b))), Err(_) => "err".into() }
 }
+fn rvo<E: std::fmt::Display>(es: Option<usize>, r: Result<Option<zarrs::array::ArrayBytes<'_>>, E>) -> String {
+    match r { Ok(Some(b)) => format!("val {}", show_elems(&from_array_bytes(es, b))), Ok(None) => "none".into(), Err(_) => "err".into() }
+}
+/// presence pattern of a list of encoded chunks (the bytes themselves are compared between the two APIs, not reported)
+fn pattern<B>(v: &[Option<B>]) -> String { if v.is_empty() { "encs ~".into() } else { format!("encs {}", v.iter().map(|x| if x.is_some() { '1' } else { '0' }).collect::<String>()) } }
+fn show_enc(v: &[Option<Vec<u8>>]) -> String { v.iter().map(|x| match x { Some(b) => hex(b), None => "none".into() }).collect::<Vec<_>>().join(",") }
+fn el_out<T, E>(r: Result<Vec<T>, E>, conv: impl Fn(T) -> Vec<u8>) -> String {
+    match r { Ok(v) => { let xs: Vec<Vec<u8>> = v.into_iter().map(conv).collect(); format!("val {}", show_elems(&xs)) } Err(_) => "err".into() }
+}
+fn el_out_opt<T, E>(r: Result<Option<Vec<T>>, E>, conv: impl Fn(T) -> Vec<u8>) -> String {
+    match r { Ok(Some(v)) => el_out::<T, E>(Ok(v), conv), Ok(None) => "none".into(), Err(_) => "err".into() }
+}
+/// an ndarray result: its elements in iteration (C) order and a check of its shape against the region it stands for
+macro_rules! nd_out {
+    ($r:expr, $conv:expr, $want:expr) => { match $r {
+        Ok(arr) => { let want: Vec<u64> = $want; let shape_ok = arr.shape().iter().map(|&x| x as u64).collect::<Vec<_>>() == want || (want.contains(&0) && arr.is_empty());
+            let xs: Vec<Vec<u8>> = arr.iter().cloned().map($conv).collect(); format!("val {}{}", show_elems(&xs), if shape_ok { "" } else { " badshape" }) }
+        Err(_) => "err".to_string() } };
+}
+macro_rules! nd_out_opt { ($r:expr, $conv:expr, $want:expr) => { match $r { Ok(Some(arr)) => nd_out!(Ok::<_, ()>(arr), $conv, $want), Ok(None) => "none".to_string(), Err(_) => "err".to_string() } }; }
+/// dispatch on the data type name: `$go!(element type, element -> native-endian bytes, bytes -> element)`
+macro_rules! typed_dispatch {
+    ($dt:expr, $go:ident) => { match $dt {
+        "uint8" => $go!(u8, |x: u8| vec![x], |b: &[u8]| b[0]),
+        "int16" => $go!(i16, |x: i16| x.to_ne_bytes().to_vec(), |b: &[u8]| i16::from_ne_bytes(b.try_into().unwrap())),
+        "uint16" => $go!(u16, |x: u16| x.to_ne_bytes().to_vec(), |b: &[u8]| u16::from_ne_bytes(b.try_into().unwrap())),
+        "int32" => $go!(i32, |x: i32| x.to_ne_bytes().to_vec(), |b: &[u8]| i32::from_ne_bytes(b.try_into().unwrap())),
+        "uint64" => $go!(u64, |x: u64| x.to_ne_bytes().to_vec(), |b: &[u8]| u64::from_ne_bytes(b.try_into().unwrap())),
+        "float32" => $go!(f32, |x: f32| x.to_ne_bytes().to_vec(), |b: &[u8]| f32::from_ne_bytes(b.try_into().unwrap())),
+        "float64" => $go!(f64, |x: f64| x.to_ne_bytes().to_vec(), |b: &[u8]| f64::from_ne_bytes(b.try_into().unwrap())),
+        "string" => $go!(String, |x: String| x.into_bytes(), |b: &[u8]| String::from_utf8_lossy(b).into_owned()),
+        _ => "untyped".to_string(),
+    } };
+}
+pub const TYPED_DTYPES: [&str; 8] = ["uint8", "int16", "uint16", "int32", "uint64", "float32", "float64", "string"];
 
-fn exec_async(ctx: &mut C07Ctx, verb: &str, m: &BTreeMap<String, String>) -> String {
+/// the output handle of an asynchronous partial encoder: the async counterpart of `zarrs::array::codec::StoragePartialEncoder`
+/// (which has no async form in the library; `Array::partial_encoder` has no async form either — the codec-level
+/// `ArrayToBytesCodecTraits::async_partial_encoder` is the asynchronous entry point)
+struct AsyncStoragePartialEncoder { store: AStore, key: StoreKey }
+#[async_trait::async_trait]
+impl AsyncBytesPartialEncoderTraits for AsyncStoragePartialEncoder {
+    async fn erase(&self) -> Result<(), CodecError> { Ok(self.store.erase(&self.key).await?) }
+    async fn partial_encode(&self, offsets_and_bytes: &[(u64, zarrs::array::RawBytes<'_>)], _options: &CodecOptions) -> Result<(), CodecError> {
+        let kovs: Vec<StoreKeyOffsetValue> = offsets_and_bytes.iter().map(|(o, b)| StoreKeyOffsetValue::new(self.key.clone(), *o, b)).collect();
+        Ok(self.store.set_partial_values(&kovs).await?)
+    }
+}
+fn erase_version(m: &BTreeMap<String, String>) -> MetadataEraseVersion {
+    match m.get("v").map(|s| s.as_str()) { Some("all") => MetadataEraseVersion::All, Some("v3") => MetadataEraseVersion::V3, Some("v2") => MetadataEraseVersion::V2, _ => MetadataEraseVersion::Default }
+}
+fn retrieve_version(m: &BTreeMap<String, String>) -> zarrs::config::MetadataRetrieveVersion {
+    use zarrs::config::MetadataRetrieveVersion as V;
+    match m.get("v").map(|s| s.as_str()) { Some("v3") => V::V3, Some("v2") => V::V2, _ => V::Default }
+}
+fn meta_opts(m: &BTreeMap<String, String>) -> ArrayMetadataOptions { ArrayMetadataOptions::default().with_include_zarrs_metadata(m.get("zm").map(|s| s != "0").unwrap_or(true)) }
+fn meta_state(store: &MemoryStore, path: &str) -> (String, Option<Vec<u8>>) {
+    match store.get(&meta_key(path)) { Ok(Some(b)) => ("ok meta=present".into(), Some(b.to_vec())), Ok(None) => ("ok meta=absent".into(), None), Err(_) => ("err-get".into(), None) }
+}
+fn penc_args(m: &BTreeMap<String, String>, es: Option<usize>) -> (Vec<ArraySubset>, Vec<ArrayBytes<'static>>) {
+    let subs: Vec<ArraySubset> = m["rs"].split('|').map(parse_subset).collect();
+    let datas: Vec<ArrayBytes<'static>> = m["data"].split('|').map(|d| to_array_bytes(es, &parse_elems(d))).collect();
+    (subs, datas)
+}
+
+fn exec_async(ctx: &mut C07Ctx, fi: usize, verb: &str, m: &BTreeMap<String, String>) -> String {
     let es = ctx.sync.es;
-    let a = ctx.aarr.clone();
+    let a = ctx.fl[fi].aarr.clone();
+    let sa = ctx.fl[fi].sarr.clone();
     let o = ctx.sync.opts.clone();
-    let astore = ctx.astore.clone();
+    let astore = ctx.fl[fi].astore.clone();
+    let aread = ctx.fl[fi].aread.clone();
+    let inner = ctx.fl[fi].inner.clone();
     let path = ctx.sync.path.clone();
+    let dtype = ctx.dtype.clone();
+    let dtype = dtype.as_str();
+    let dflt = m.get("dflt").map(|s| s == "1").unwrap_or(false);
+    let last_meta = ctx.last_meta.clone();
     let rt = &ctx.rt;
     let mut new_arr: Option<AArr> = None;
     let out = guarded(|| rt.block_on(async {
@@ -84,20 +190,99 @@ fn exec_async(ctx: &mut C07Ctx, verb: &str, m: &BTreeMap<String, String>) -> Str
             "store_array_subset" => ru(a.async_store_array_subset_opt(&parse_subset(&m["r"]), to_array_bytes(es, &parse_elems(&m["data"])), &o).await),
             "erase_chunk" => ru(a.async_erase_chunk(&pnl(&m["c"])).await),
             "erase_chunks" => ru(a.async_erase_chunks(&parse_subset(&m["box"])).await),
+            // the forms without options (= the default options; generated only where those equal the options of the case)
+            "store_chunk" if dflt => ru(a.async_store_chunk(&pnl(&m["c"]), to_array_bytes(es, &parse_elems(&m["data"]))).await),
+            "store_chunks" if dflt => ru(a.async_store_chunks(&parse_subset(&m["box"]), to_array_bytes(es, &parse_elems(&m["data"]))).await),
+            "store_chunk_subset" if dflt => ru(a.async_store_chunk_subset(&pnl(&m["c"]), &parse_subset(&m["r"]), to_array_bytes(es, &parse_elems(&m["data"]))).await),
+            "store_array_subset" if dflt => ru(a.async_store_array_subset(&parse_subset(&m["r"]), to_array_bytes(es, &parse_elems(&m["data"]))).await),
+            "retrieve_chunk" if dflt => rv(es, a.async_retrieve_chunk(&pnl(&m["c"])).await),
+            "retrieve_chunk_if_exists" if dflt => rvo(es, a.async_retrieve_chunk_if_exists(&pnl(&m["c"])).await),
+            "retrieve_chunks" if dflt => rv(es, a.async_retrieve_chunks(&parse_subset(&m["box"])).await),
+            "retrieve_chunk_subset" if dflt => rv(es, a.async_retrieve_chunk_subset(&pnl(&m["c"]), &parse_subset(&m["r"])).await),
+            "retrieve_array_subset" if dflt => rv(es, a.async_retrieve_array_subset(&parse_subset(&m["r"])).await),
             "retrieve_chunk" => rv(es, a.async_retrieve_chunk_opt(&pnl(&m["c"]), &o).await),
-            "retrieve_chunk_if_exists" => match a.async_retrieve_chunk_if_exists_opt(&pnl(&m["c"]), &o).await {
-                Ok(Some(b)) => format!("val {}", show_elems(&from_array_bytes(es, b))), Ok(None) => "none".into(), Err(_) => "err".into() },
+            "retrieve_chunk_if_exists" => rvo(es, a.async_retrieve_chunk_if_exists_opt(&pnl(&m["c"]), &o).await),
             "retrieve_chunks" => rv(es, a.async_retrieve_chunks_opt(&parse_subset(&m["box"]), &o).await),
             "retrieve_chunk_subset" => rv(es, a.async_retrieve_chunk_subset_opt(&pnl(&m["c"]), &parse_subset(&m["r"]), &o).await),
             "retrieve_array_subset" => rv(es, a.async_retrieve_array_subset_opt(&parse_subset(&m["r"]), &o).await),
+            // encoded chunks: the synchronous form over the SAME store contents (this flavour's MemoryStore) against the
+            // asynchronous form, byte for byte and position for position
+            "enc_chunk" => {
+                let c = pnl(&m["c"]);
+                let s = sa.retrieve_encoded_chunk(&c);
+                let r = a.async_retrieve_encoded_chunk(&c).await;
+                match (s, r) {
+                    (Ok(s), Ok(r)) => { let r = r.map(|b| b.to_vec()); if s == r { if s.is_some() { "enc some".into() } else { "enc none".into() } } else { format!("BYTES sync={} async={}", show_enc(&[s]), show_enc(&[r])) } }
+                    (Err(_), Err(_)) => "err".into(),
+                    (s, r) => format!("ERRS sync={} async={}", s.is_err(), r.is_err()),
+                }
+            }
+            "enc_chunks" => {
+                let b = parse_subset(&m["box"]);
+                let s = sa.retrieve_encoded_chunks(&b, &o);
+                let r = a.async_retrieve_encoded_chunks(&b, &o).await;
+                match (s, r) {
+                    (Ok(s), Ok(r)) => { let r: Vec<Option<Vec<u8>>> = r.into_iter().map(|x| x.map(|b| b.to_vec())).collect(); if s == r { pattern(&s) } else { format!("BYTES sync={} async={}", show_enc(&s), show_enc(&r)) } }
+                    (Err(_), Err(_)) => "err".into(),
+                    (s, r) => format!("ERRS sync={} async={}", s.is_err(), r.is_err()),
+                }
+            }
+            // typed element forms
+            "typed_chunk" => { let c = pnl(&m["c"]); macro_rules! go { ($t:ty, $conv:expr, $from:expr) => { el_out(a.async_retrieve_chunk_elements_opt::<$t>(&c, &o).await, $conv) } } typed_dispatch!(dtype, go) }
+            "typed_chunk_if_exists" => { let c = pnl(&m["c"]); macro_rules! go { ($t:ty, $conv:expr, $from:expr) => { el_out_opt(a.async_retrieve_chunk_elements_if_exists_opt::<$t>(&c, &o).await, $conv) } } typed_dispatch!(dtype, go) }
+            "typed_chunks" => { let b = parse_subset(&m["box"]); macro_rules! go { ($t:ty, $conv:expr, $from:expr) => { el_out(a.async_retrieve_chunks_elements_opt::<$t>(&b, &o).await, $conv) } } typed_dispatch!(dtype, go) }
+            "typed_chunk_subset" => { let c = pnl(&m["c"]); let r = parse_subset(&m["r"]); macro_rules! go { ($t:ty, $conv:expr, $from:expr) => { el_out(a.async_retrieve_chunk_subset_elements_opt::<$t>(&c, &r, &o).await, $conv) } } typed_dispatch!(dtype, go) }
+            "typed_subset" => { let r = parse_subset(&m["r"]); macro_rules! go { ($t:ty, $conv:expr, $from:expr) => { el_out(a.async_retrieve_array_subset_elements_opt::<$t>(&r, &o).await, $conv) } } typed_dispatch!(dtype, go) }
+            // ndarray forms
+            "nd_chunk" => { let c = pnl(&m["c"]); let want: Vec<u64> = a.chunk_shape(&c).map(|s| s.iter().map(|x| x.get()).collect()).unwrap_or_default();
+                macro_rules! go { ($t:ty, $conv:expr, $from:expr) => { nd_out!(a.async_retrieve_chunk_ndarray_opt::<$t>(&c, &o).await, $conv, want.clone()) } } typed_dispatch!(dtype, go) }
+            "nd_chunk_if_exists" => { let c = pnl(&m["c"]); let want: Vec<u64> = a.chunk_shape(&c).map(|s| s.iter().map(|x| x.get()).collect()).unwrap_or_default();
+                macro_rules! go { ($t:ty, $conv:expr, $from:expr) => { nd_out_opt!(a.async_retrieve_chunk_ndarray_if_exists_opt::<$t>(&c, &o).await, $conv, want.clone()) } } typed_dispatch!(dtype, go) }
+            "nd_chunks" => { let b = parse_subset(&m["box"]); let want: Vec<u64> = a.chunks_subset(&b).map(|s| s.shape().to_vec()).unwrap_or_default();
+                macro_rules! go { ($t:ty, $conv:expr, $from:expr) => { nd_out!(a.async_retrieve_chunks_ndarray_opt::<$t>(&b, &o).await, $conv, want.clone()) } } typed_dispatch!(dtype, go) }
+            "nd_chunk_subset" => { let c = pnl(&m["c"]); let r = parse_subset(&m["r"]);
+                macro_rules! go { ($t:ty, $conv:expr, $from:expr) => { nd_out!(a.async_retrieve_chunk_subset_ndarray_opt::<$t>(&c, &r, &o).await, $conv, r.shape().to_vec()) } } typed_dispatch!(dtype, go) }
+            "nd_subset" => { let r = parse_subset(&m["r"]);
+                macro_rules! go { ($t:ty, $conv:expr, $from:expr) => { nd_out!(a.async_retrieve_array_subset_ndarray_opt::<$t>(&r, &o).await, $conv, r.shape().to_vec()) } } typed_dispatch!(dtype, go) }
+            // typed element stores
+            "tstore_chunk" => { let c = pnl(&m["c"]); let xs = parse_elems(&m["data"]);
+                macro_rules! go { ($t:ty, $conv:expr, $from:expr) => {{ let v: Vec<$t> = xs.iter().map(|b| $from(&b[..])).collect(); ru(a.async_store_chunk_elements_opt::<$t>(&c, &v, &o).await) }} } typed_dispatch!(dtype, go) }
+            "tstore_chunks" => { let b = parse_subset(&m["box"]); let xs = parse_elems(&m["data"]);
+                macro_rules! go { ($t:ty, $conv:expr, $from:expr) => {{ let v: Vec<$t> = xs.iter().map(|b| $from(&b[..])).collect(); ru(a.async_store_chunks_elements_opt::<$t>(&b, &v, &o).await) }} } typed_dispatch!(dtype, go) }
+            "tstore_chunk_subset" => { let c = pnl(&m["c"]); let r = parse_subset(&m["r"]); let xs = parse_elems(&m["data"]);
+                macro_rules! go { ($t:ty, $conv:expr, $from:expr) => {{ let v: Vec<$t> = xs.iter().map(|b| $from(&b[..])).collect(); ru(a.async_store_chunk_subset_elements_opt::<$t>(&c, &r, &v, &o).await) }} } typed_dispatch!(dtype, go) }
+            "tstore_array_subset" => { let r = parse_subset(&m["r"]); let xs = parse_elems(&m["data"]);
+                macro_rules! go { ($t:ty, $conv:expr, $from:expr) => {{ let v: Vec<$t> = xs.iter().map(|b| $from(&b[..])).collect(); ru(a.async_store_array_subset_elements_opt::<$t>(&r, &v, &o).await) }} } typed_dispatch!(dtype, go) }
+            // metadata
+            "store_metadata" => {
+                if a.async_store_metadata_opt(&meta_opts(m)).await.is_err() { return "err".to_string(); }
+                let (s, bytes) = meta_state(&inner, &path);
+                if bytes == last_meta { s } else { format!("META-BYTES sync={} async={}", show_enc(&[last_meta.clone()]), show_enc(&[bytes])) }
+            }
+            "open_opt" => ru(Array::async_open_opt(astore.clone(), &path, &retrieve_version(m)).await.map(|_| ())),
+            "erase_metadata" => { if a.async_erase_metadata_opt(erase_version(m)).await.is_err() { return "err".to_string(); } meta_state(&inner, &path).0 }
+            // partial decoder / encoder
             "pdx" => {
                 let c = pnl(&m["c"]);
                 let rs: Vec<_> = m["rs"].split('|').map(parse_subset).collect();
-                let pd = match a.async_partial_decoder_opt(&c, &o).await { Ok(p) => p, Err(_) => return "err".to_string() };
+                let pd = match if dflt { a.async_partial_decoder(&c).await } else { a.async_partial_decoder_opt(&c, &o).await } { Ok(p) => p, Err(_) => return "err".to_string() };
                 match pd.partial_decode(&rs, &o).await {
                     Ok(parts) => format!("val {}", parts.into_iter().map(|b| show_elems(&from_array_bytes(es, b))).collect::<Vec<_>>().join("|")),
                     Err(_) => "err".into(),
                 }
+            }
+            "penc" | "penc_erase" => {
+                let c = pnl(&m["c"]);
+                let key = a.chunk_key(&c);
+                let repr = match a.chunk_array_representation(&c) { Ok(r) => r, Err(_) => return "err".to_string() };
+                let input = Arc::new(AsyncStoragePartialDecoder::new(aread.clone(), key.clone()));
+                let output = Arc::new(AsyncStoragePartialEncoder { store: astore.clone(), key });
+                let codecs: Arc<dyn ArrayToBytesCodecTraits> = Arc::new(a.codecs().clone());
+                let pe = match codecs.async_partial_encoder(input, output, &repr, &o).await { Ok(p) => p, Err(_) => return "err".to_string() };
+                if verb == "penc_erase" { return ru(pe.erase().await); }
+                let (subs, datas) = penc_args(m, es);
+                let sb: Vec<(&ArraySubset, ArrayBytes<'_>)> = subs.iter().zip(datas.into_iter()).collect();
+                ru(pe.partial_encode(&sb, &o).await)
             }
             "keys" => {
                 let mut ks: Vec<String> = astore.list().await.unwrap_or_default().iter().map(|k| k.as_str().to_string()).collect();
@@ -113,50 +298,132 @@ fn exec_async(ctx: &mut C07Ctx, verb: &str, m: &BTreeMap<String, String>) -> Str
             _ => "bad-op".into(),
         }
     }));
-    if let Some(arr) = new_arr { ctx.aarr = Arc::new(arr); }
+    if let Some(arr) = new_arr {
+        ctx.fl[fi].aarr = Arc::new(arr);
+        let d: DynStore = ctx.fl[fi].inner.clone();
+        if let Ok(sarr) = Array::open(d, &ctx.sync.path) { ctx.fl[fi].sarr = Arc::new(sarr); }
+    }
     out
 }
 
 fn exec_sync(ctx: &mut C07Ctx, verb: &str, m: &BTreeMap<String, String>) -> String {
-    if verb == "pdx" {
-        let a = ctx.sync.array.clone();
-        let es = ctx.sync.es;
-        let o = ctx.sync.opts.clone();
-        return guarded(|| {
+    let a = ctx.sync.array.clone();
+    let es = ctx.sync.es;
+    let o = ctx.sync.opts.clone();
+    let dtype = ctx.dtype.clone();
+    let dtype = dtype.as_str();
+    let dflt = m.get("dflt").map(|s| s == "1").unwrap_or(false);
+    let path = ctx.sync.path.clone();
+    let store = ctx.sync.store.store.clone();
+    let mut meta_bytes: Option<Option<Vec<u8>>> = None;
+    let out = guarded(|| match verb {
+        "store_chunk" if dflt => ru(a.store_chunk(&pnl(&m["c"]), to_array_bytes(es, &parse_elems(&m["data"])))),
+        "store_chunks" if dflt => ru(a.store_chunks(&parse_subset(&m["box"]), to_array_bytes(es, &parse_elems(&m["data"])))),
+        "store_chunk_subset" if dflt => ru(a.store_chunk_subset(&pnl(&m["c"]), &parse_subset(&m["r"]), to_array_bytes(es, &parse_elems(&m["data"])))),
+        "store_array_subset" if dflt => ru(a.store_array_subset(&parse_subset(&m["r"]), to_array_bytes(es, &parse_elems(&m["data"])))),
+        "open_opt" => { let s: DynStore = store.clone(); ru(Array::open_opt(s, &path, &retrieve_version(m)).map(|_| ())) }
+        "retrieve_chunk" if dflt => rv(es, a.retrieve_chunk(&pnl(&m["c"]))),
+        "retrieve_chunk_if_exists" if dflt => rvo(es, a.retrieve_chunk_if_exists(&pnl(&m["c"]))),
+        "retrieve_chunks" if dflt => rv(es, a.retrieve_chunks(&parse_subset(&m["box"]))),
+        "retrieve_chunk_subset" if dflt => rv(es, a.retrieve_chunk_subset(&pnl(&m["c"]), &parse_subset(&m["r"]))),
+        "retrieve_array_subset" if dflt => rv(es, a.retrieve_array_subset(&parse_subset(&m["r"]))),
+        "enc_chunk" => match a.retrieve_encoded_chunk(&pnl(&m["c"])) { Ok(Some(_)) => "enc some".into(), Ok(None) => "enc none".into(), Err(_) => "err".into() },
+        "enc_chunks" => match a.retrieve_encoded_chunks(&parse_subset(&m["box"]), &o) { Ok(v) => pattern(&v), Err(_) => "err".into() },
+        "typed_chunk" => { let c = pnl(&m["c"]); macro_rules! go { ($t:ty, $conv:expr, $from:expr) => { el_out(a.retrieve_chunk_elements_opt::<$t>(&c, &o), $conv) } } typed_dispatch!(dtype, go) }
+        "typed_chunk_if_exists" => { let c = pnl(&m["c"]); macro_rules! go { ($t:ty, $conv:expr, $from:expr) => { el_out_opt(a.retrieve_chunk_elements_if_exists_opt::<$t>(&c, &o), $conv) } } typed_dispatch!(dtype, go) }
+        "typed_chunks" => { let b = parse_subset(&m["box"]); macro_rules! go { ($t:ty, $conv:expr, $from:expr) => { el_out(a.retrieve_chunks_elements_opt::<$t>(&b, &o), $conv) } } typed_dispatch!(dtype, go) }
+        "typed_chunk_subset" => { let c = pnl(&m["c"]); let r = parse_subset(&m["r"]); macro_rules! go { ($t:ty, $conv:expr, $from:expr) => { el_out(a.retrieve_chunk_subset_elements_opt::<$t>(&c, &r, &o), $conv) } } typed_dispatch!(dtype, go) }
+        "typed_subset" => { let r = parse_subset(&m["r"]); macro_rules! go { ($t:ty, $conv:expr, $from:expr) => { el_out(a.retrieve_array_subset_elements_opt::<$t>(&r, &o), $conv) } } typed_dispatch!(dtype, go) }
+        "nd_chunk" => { let c = pnl(&m["c"]); let want: Vec<u64> = a.chunk_shape(&c).map(|s| s.iter().map(|x| x.get()).collect()).unwrap_or_default();
+            macro_rules! go { ($t:ty, $conv:expr, $from:expr) => { nd_out!(a.retrieve_chunk_ndarray_opt::<$t>(&c, &o), $conv, want.clone()) } } typed_dispatch!(dtype, go) }
+        "nd_chunk_if_exists" => { let c = pnl(&m["c"]); let want: Vec<u64> = a.chunk_shape(&c).map(|s| s.iter().map(|x| x.get()).collect()).unwrap_or_default();
+            macro_rules! go { ($t:ty, $conv:expr, $from:expr) => { nd_out_opt!(a.retrieve_chunk_ndarray_if_exists_opt::<$t>(&c, &o), $conv, want.clone()) } } typed_dispatch!(dtype, go) }
+        "nd_chunks" => { let b = parse_subset(&m["box"]); let want: Vec<u64> = a.chunks_subset(&b).map(|s| s.shape().to_vec()).unwrap_or_default();
+            macro_rules! go { ($t:ty, $conv:expr, $from:expr) => { nd_out!(a.retrieve_chunks_ndarray_opt::<$t>(&b, &o), $conv, want.clone()) } } typed_dispatch!(dtype, go) }
+        "nd_chunk_subset" => { let c = pnl(&m["c"]); let r = parse_subset(&m["r"]);
+            macro_rules! go { ($t:ty, $conv:expr, $from:expr) => { nd_out!(a.retrieve_chunk_subset_ndarray_opt::<$t>(&c, &r, &o), $conv, r.shape().to_vec()) } } typed_dispatch!(dtype, go) }
+        "nd_subset" => { let r = parse_subset(&m["r"]);
+            macro_rules! go { ($t:ty, $conv:expr, $from:expr) => { nd_out!(a.retrieve_array_subset_ndarray_opt::<$t>(&r, &o), $conv, r.shape().to_vec()) } } typed_dispatch!(dtype, go) }
+        "tstore_chunk" => { let c = pnl(&m["c"]); let xs = parse_elems(&m["data"]);
+            macro_rules! go { ($t:ty, $conv:expr, $from:expr) => {{ let v: Vec<$t> = xs.iter().map(|b| $from(&b[..])).collect(); ru(a.store_chunk_elements_opt::<$t>(&c, &v, &o)) }} } typed_dispatch!(dtype, go) }
+        "tstore_chunks" => { let b = parse_subset(&m["box"]); let xs = parse_elems(&m["data"]);
+            macro_rules! go { ($t:ty, $conv:expr, $from:expr) => {{ let v: Vec<$t> = xs.iter().map(|b| $from(&b[..])).collect(); ru(a.store_chunks_elements_opt::<$t>(&b, &v, &o)) }} } typed_dispatch!(dtype, go) }
+        "tstore_chunk_subset" => { let c = pnl(&m["c"]); let r = parse_subset(&m["r"]); let xs = parse_elems(&m["data"]);
+            macro_rules! go { ($t:ty, $conv:expr, $from:expr) => {{ let v: Vec<$t> = xs.iter().map(|b| $from(&b[..])).collect(); ru(a.store_chunk_subset_elements_opt::<$t>(&c, &r, &v, &o)) }} } typed_dispatch!(dtype, go) }
+        "tstore_array_subset" => { let r = parse_subset(&m["r"]); let xs = parse_elems(&m["data"]);
+            macro_rules! go { ($t:ty, $conv:expr, $from:expr) => {{ let v: Vec<$t> = xs.iter().map(|b| $from(&b[..])).collect(); ru(a.store_array_subset_elements_opt::<$t>(&r, &v, &o)) }} } typed_dispatch!(dtype, go) }
+        "store_metadata" => {
+            if a.store_metadata_opt(&meta_opts(m)).is_err() { return "err".to_string(); }
+            match store.get(&meta_key(&path)) { Ok(Some(b)) => { meta_bytes = Some(Some(b.to_vec())); "ok meta=present".into() } Ok(None) => { meta_bytes = Some(None); "ok meta=absent".into() } Err(_) => "err-get".into() }
+        }
+        "erase_metadata" => {
+            if a.erase_metadata_opt(erase_version(m)).is_err() { return "err".to_string(); }
+            match store.get(&meta_key(&path)) { Ok(Some(_)) => "ok meta=present".into(), Ok(None) => "ok meta=absent".into(), Err(_) => "err-get".into() }
+        }
+        "pdx" => {
             let c = pnl(&m["c"]);
             let rs: Vec<_> = m["rs"].split('|').map(parse_subset).collect();
-            let pd = match a.partial_decoder_opt(&c, &o) { Ok(p) => p, Err(_) => return "err".into() };
+            let pd = match if dflt { a.partial_decoder(&c) } else { a.partial_decoder_opt(&c, &o) } { Ok(p) => p, Err(_) => return "err".into() };
             match pd.partial_decode(&rs, &o) {
                 Ok(parts) => format!("val {}", parts.into_iter().map(|b| show_elems(&from_array_bytes(es, b))).collect::<Vec<_>>().join("|")),
                 Err(_) => "err".into(),
             }
-        });
-    }
-    exec_op(&mut ctx.sync, verb, m)
+        }
+        "penc" | "penc_erase" => {
+            let c = pnl(&m["c"]);
+            let pe: Arc<dyn ArrayPartialEncoderTraits> = match a.partial_encoder(&c, &o) { Ok(p) => p, Err(_) => return "err".into() };
+            if verb == "penc_erase" { return ru(pe.erase()); }
+            let (subs, datas) = penc_args(m, es);
+            let sb: Vec<(&ArraySubset, ArrayBytes<'_>)> = subs.iter().zip(datas.into_iter()).collect();
+            ru(pe.partial_encode(&sb, &o))
+        }
+        _ => "delegate".into(),
+    });
+    if let Some(b) = meta_bytes { ctx.last_meta = b; }
+    if out == "delegate" { exec_op(&mut ctx.sync, verb, m) } else { out }
 }
 
 pub fn exec(ctx: &mut C07Ctx, verb: &str, m: &BTreeMap<String, String>) -> String {
     if verb == "contents" {
-        // readable contents of both stores through fresh synchronous handles
-        let s1: DynStore = ctx.sync.store.store.clone();
-        let s2: DynStore = Arc::new(AsyncToSyncStorageAdapter::new(ctx.astore.clone(), rt()));
+        // readable contents of all stores through fresh synchronous handles
         let path = ctx.sync.path.clone();
         let es = ctx.sync.es;
         let read = |s: DynStore| -> String { guarded(|| match Array::open(s, &path) {
             Ok(a) => match a.retrieve_array_subset(&ArraySubset::new_with_shape(a.shape().to_vec())) { Ok(b) => format!("val {}", show_elems(&from_array_bytes(es, b))), Err(_) => "err".into() },
             Err(_) => "err-open".into() }) };
-        let (a, b) = (read(s1), read(s2));
-        return if a == b { a } else { format!("MISMATCH sync={} async={}", a, b) };
+        let a = read(ctx.sync.store.store.clone());
+        for f in &ctx.fl {
+            let b = read(Arc::new(AsyncToSyncStorageAdapter::new(f.astore.clone(), rt())));
+            if a != b { return format!("MISMATCH sync={} async[{}]={}", a, f.name, b); }
+        }
+        return a;
     }
     let s = exec_sync(ctx, verb, m);
-    let a = exec_async(ctx, verb, m);
-    if s == a { s } else { format!("MISMATCH sync={} async={}", s, a) }
+    // every flavour executes the operation (their stores stay in step); the first disagreement is reported
+    let mut bad: Option<String> = None;
+    for fi in 0..ctx.fl.len() {
+        let a = exec_async(ctx, fi, verb, m);
+        if a != s && bad.is_none() { bad = Some(format!("MISMATCH sync={} async[{}]={}", s, ctx.fl[fi].name, a)); }
+    }
+    bad.unwrap_or(s)
 }
 
 // ---------------------------------------------------------------- hierarchy: sync and async forms over one store
 
-pub struct HCtx { pub astore: AStore, pub sync: DynStore, pub rt: tokio::runtime::Runtime }
-pub fn open_hcfg() -> HCtx { let astore = new_astore(); HCtx { sync: Arc::new(AsyncToSyncStorageAdapter::new(astore.clone(), rt())), astore, rt: new_rt() } }
+pub struct HCtx { pub astore: AStore, pub inner: Arc<MemoryStore>, pub sync: DynStore, pub rt: tokio::runtime::Runtime }
+/// `c07 hcfg lat=<seed>`: the hierarchy lives in a latency store (absent or `lat=-`: the immediate adapter)
+pub fn open_hcfg(m: &BTreeMap<String, String>) -> HCtx {
+    let (astore, _, inner) = new_astore(m.get("lat").and_then(|s| s.parse::<u64>().ok()));
+    HCtx { sync: Arc::new(AsyncToSyncStorageAdapter::new(astore.clone(), rt())), astore, inner, rt: new_rt() }
+}
+fn dump(store: &MemoryStore) -> Vec<(StoreKey, Vec<u8>)> {
+    let mut ks = store.list().unwrap_or_default(); ks.sort();
+    ks.into_iter().map(|k| { let v = store.get(&k).ok().flatten().map(|b| b.to_vec()).unwrap_or_default(); (k, v) }).collect()
+}
+fn restore(store: &MemoryStore, d: &[(StoreKey, Vec<u8>)]) {
+    let _ = store.erase_prefix(&StorePrefix::root());
+    for (k, v) in d { let _ = store.set(k, v.clone().into()); }
+}
 
 fn kind_of(md: &NodeMetadata) -> &'static str {
     match md {
@@ -177,6 +444,33 @@ pub fn exec_hop(ctx: &HCtx, verb: &str, m: &BTreeMap<String, String>) -> String 
     let store = ctx.sync.clone();
     let astore = ctx.astore.clone();
     let paths = |v: Vec<NodePath>| show(v.iter().map(|x| x.as_str().to_string()).collect());
+    // metadata mutations with both forms (`Group::store_metadata` / `async_store_metadata`, `Group|Array::erase_metadata` /
+    // `async_erase_metadata`): the synchronous form runs, the store is put back, the asynchronous form runs; outcomes and
+    // resulting stores (keys and bytes) are compared
+    if (verb == "mkgroup" && m["v"] == "3") || verb == "rmmeta" {
+        let before = dump(&ctx.inner);
+        let s = guarded(|| match verb {
+            "mkgroup" => match Group::new_with_metadata(store.clone(), &p, GroupMetadata::V3(GroupMetadataV3::new())) { Ok(g) => ru(g.store_metadata()), Err(_) => "err-path".into() },
+            _ => {
+                if let Ok(g) = Group::open(store.clone(), &p) { return ru(g.erase_metadata()); }
+                if let Ok(a) = Array::open(store.clone(), &p) { return ru(a.erase_metadata()); }
+                "none".into()
+            }
+        });
+        let after_s = dump(&ctx.inner);
+        restore(&ctx.inner, &before);
+        let a = guarded(|| ctx.rt.block_on(async { match verb {
+            "mkgroup" => match Group::new_with_metadata(astore.clone(), &p, GroupMetadata::V3(GroupMetadataV3::new())) { Ok(g) => ru(g.async_store_metadata().await), Err(_) => "err-path".into() },
+            _ => {
+                if let Ok(g) = Group::async_open(astore.clone(), &p).await { return ru(g.async_erase_metadata().await); }
+                if let Ok(a) = Array::async_open(astore.clone(), &p).await { return ru(a.async_erase_metadata().await); }
+                "none".into()
+            }
+        } }));
+        let after_a = dump(&ctx.inner);
+        return if s == a && after_s == after_a { s } else if s != a { format!("MISMATCH sync={} async={}", s, a) }
+            else { format!("MISMATCH sync-store={} async-store={}", after_s.iter().map(|(k, v)| format!("{}:{}", k.as_str(), hex(v))).collect::<Vec<_>>().join(","), after_a.iter().map(|(k, v)| format!("{}:{}", k.as_str(), hex(v))).collect::<Vec<_>>().join(",")) };
+    }
     // the synchronous form
     let s = guarded(|| match verb {
         "mkgroup" => if m["v"] == "3" {
@@ -230,8 +524,65 @@ pub fn exec_hop(ctx: &HCtx, verb: &str, m: &BTreeMap<String, String>) -> String 
     if s == a { s } else { format!("MISMATCH sync={} async={}", s, a) }
 }
 
+fn c07_box(rng: &mut Rng, ext: &[u64]) -> String {
+    let mut s = vec![]; let mut n = vec![];
+    for &e in ext { if e == 0 { s.push(0); n.push(0); continue; } let st = rng.below(e); s.push(st); n.push(if rng.chance(1, 14) { 0 } else { rng.range(1, e - st) }); }
+    format!("{}+{}", nl(&s), nl(&n))
+}
+fn rename(op: &str, pairs: &[(&str, &str)]) -> Option<String> {
+    for (from, to) in pairs { if let Some(rest) = op.strip_prefix(&format!("op {} ", from)) { return Some(format!("op {} {}", to, rest)); } }
+    None
+}
+/// the verbs added for the asynchronous forms that the plain read/write generators do not produce
+fn gen_extra_ops(rng: &mut Rng, cfg: &Cfg, plain_opts: bool, out: &mut Vec<String>) {
+    let gs = cfg.grid_shape();
+    let chunk: Vec<u64> = gs.iter().map(|&g| rng.below(g.max(1))).collect();
+    match rng.below(16) {
+        0 => out.push(format!("c07 op enc_chunk c={}", nl(&chunk))),
+        1 | 2 => out.push(format!("c07 op enc_chunks box={}", c07_box(rng, &gs))),
+        3 => out.push(format!("c07 op enc_chunks box={}+{}", nl(&vec![0; gs.len()]), nl(&gs))),
+        12 => out.push(format!("c07 op open_opt v={}", rng.pick(&["default", "v3", "v2"]))),
+        13 => { // the write forms without options, where the default options are the options of the case
+            let op = gen_write_op(rng, cfg);
+            out.push(format!("c07 {}{}", op, if plain_opts && op.starts_with("op store") { " dflt=1" } else { "" }));
+        }
+        4 | 5 | 14 | 15 => { // typed element / ndarray forms of the reads
+            let op = gen_read_op(rng, cfg);
+            let pairs: [(&str, &str); 5] = if rng.chance(1, 2) { [("retrieve_chunk", "typed_chunk"), ("retrieve_chunk_if_exists", "typed_chunk_if_exists"), ("retrieve_chunks", "typed_chunks"), ("retrieve_chunk_subset", "typed_chunk_subset"), ("retrieve_array_subset", "typed_subset")] }
+                else { [("retrieve_chunk", "nd_chunk"), ("retrieve_chunk_if_exists", "nd_chunk_if_exists"), ("retrieve_chunks", "nd_chunks"), ("retrieve_chunk_subset", "nd_chunk_subset"), ("retrieve_array_subset", "nd_subset")] };
+            if let Some(l) = rename(&op, &pairs) { out.push(format!("c07 {}", l)); }
+        }
+        6 => { // typed element forms of the writes (data types without a typed form answer `untyped` and write nothing)
+            let op = gen_write_op(rng, cfg);
+            match rename(&op, &[("store_chunk", "tstore_chunk"), ("store_chunks", "tstore_chunks"), ("store_chunk_subset", "tstore_chunk_subset"), ("store_array_subset", "tstore_array_subset")]) {
+                Some(l) => out.push(format!("c07 {}", l)), None => out.push(format!("c07 {}", op)) }
+        }
+        7 => out.push(format!("c07 {} dflt=1", gen_read_op(rng, cfg))),
+        8 => { // the metadata document: erased, then stored again (compared byte for byte)
+            out.push(format!("c07 op erase_metadata v={}", rng.pick(&["default", "all", "v3", "v2"])));
+            out.push(format!("c07 op store_metadata zm={}", rng.below(2)));
+        }
+        _ => { // partial encoder: 1-3 sub-boxes of one chunk written in one call; sometimes the chunk is erased through it
+            if cfg.shape.is_empty() { return; }
+            if rng.chance(1, 8) { out.push(format!("c07 op penc_erase c={}", nl(&chunk))); return; }
+            let cshape = cfg.chunk_origin_shape(&chunk).1;
+            let mut rs = vec![]; let mut ds = vec![];
+            for _ in 0..rng.range(1, 3) {
+                let mut st = vec![]; let mut n = vec![];
+                for &e in &cshape { let a = rng.below(e); st.push(a); n.push(rng.range(1, e - a)); }
+                ds.push(gen_data(rng, cfg, n.iter().product()));
+                rs.push(format!("{}+{}", nl(&st), nl(&n)));
+            }
+            out.push(format!("c07 op penc c={} rs={} data={}", nl(&chunk), rs.join("|"), ds.join("|")));
+            if rng.chance(1, 2) { out.push(format!("c07 op retrieve_chunk c={}", nl(&chunk))); }
+        }
+    }
+}
+
 pub fn generate(tier: &str, seed: u64) -> Vec<String> {
     let mut rng = Rng::new(seed ^ 0xC07);
+    // own stream for what this module adds to the shared generators: latency seeds, concurrency targets, extra verbs
+    let mut rx = Rng::new(seed ^ 0xC07_A2);
     let thorough = tier == "thorough";
     let ncfg = if thorough { 4000 } else { 350 };
     let mut out = vec![];
@@ -239,7 +590,13 @@ pub fn generate(tier: &str, seed: u64) -> Vec<String> {
         let cfg = gen_cfg(&mut rng, if k % 3 == 0 { Some(true) } else { None });
         // partial encoding is a synchronous-only write strategy: the stored bytes may differ, the contents may not
         let penc = k % 5 == 4;
-        out.push(cfg.cfg_line("c07", "memory", rng.chance(1, 4), penc, ""));
+        // three latency flavours per case (plus the immediate one); an explicit concurrency target in most cases (absent = the
+        // global default, the number of CPUs)
+        let lats: Vec<u64> = (0..3).map(|_| rx.below(100000)).collect();
+        let ct = *rx.pick(&[0u64, 1, 2, 3, 4, 8]);
+        let extra = format!(" lat={}{}", nl(&lats), if ct == 0 { String::new() } else { format!(" ct={}", ct) });
+        let empty = rng.chance(1, 4);
+        out.push(cfg.cfg_line("c07", "memory", empty, penc, &extra));
         let nops = if thorough { rng.range(1, 30) } else { rng.range(1, 10) };
         for _ in 0..nops {
             out.push(format!("c07 {}", gen_write_op(&mut rng, &cfg)));
@@ -251,23 +608,30 @@ pub fn generate(tier: &str, seed: u64) -> Vec<String> {
                 let c: Vec<u64> = gs.iter().map(|&g| rng.below(g.max(1))).collect();
                 let cshape = cfg.chunk_origin_shape(&c).1;
                 let rs: Vec<String> = (0..rng.range(1, 3)).map(|_| { let mut s = vec![]; let mut n = vec![]; for &e in &cshape { let st = rng.below(e); s.push(st); n.push(rng.range(1, e - st)); } format!("{}+{}", nl(&s), nl(&n)) }).collect();
-                out.push(format!("c07 op pdx c={} rs={}", nl(&c), rs.join("|")));
+                out.push(format!("c07 op pdx c={} rs={}{}", nl(&c), rs.join("|"), if rx.chance(1, 4) { " dflt=1" } else { "" }));
             }
+            if rx.chance(2, 3) { gen_extra_ops(&mut rx, &cfg, !empty && !penc, &mut out); }
         }
         gen_full_reads(&mut rng, &cfg, &mut out, "c07");
+        let gs = cfg.grid_shape();
+        out.push(format!("c07 op enc_chunks box={}+{}", nl(&vec![0; gs.len()]), nl(&gs)));
+        out.push(format!("c07 op typed_chunks box={}+{}", nl(&vec![0; gs.len()]), nl(&gs)));
+        out.push("c07 op store_metadata zm=1".to_string());
         out.push("c07 op keys".to_string());
         out.push("c07 op contents".to_string());
         out.push("c07 op reopen".to_string());
         gen_full_reads(&mut rng, &cfg, &mut out, "c07");
+        out.push(format!("c07 op enc_chunks box={}+{}", nl(&vec![0; gs.len()]), nl(&gs)));
     }
     // hierarchies
     let nh = if thorough { 1500 } else { 150 };
-    for _ in 0..nh {
-        out.push("c07 hcfg".to_string());
+    for h in 0..nh {
+        // every third hierarchy behind the immediate adapter, the others behind a latency store
+        out.push(if h % 3 == 0 { "c07 hcfg lat=-".to_string() } else { format!("c07 hcfg lat={}", rx.below(100000)) });
         let names = ["a", "b", "c", "g1", "zarr", "x.y", "t__2m"];
         let mut paths: Vec<String> = vec!["/".to_string()];
         for _ in 0..rng.range(4, if thorough { 30 } else { 16 }) {
-            let sel = rng.below(18);
+            let sel = rng.below(20);
             let parent = rng.pick(&paths).clone();
             let child = if parent == "/" { format!("/{}", rng.pick(&names)) } else { format!("{}/{}", parent, rng.pick(&names)) };
             match sel {
@@ -279,6 +643,8 @@ pub fn generate(tier: &str, seed: u64) -> Vec<String> {
                 12 => out.push(format!("c07 hop paths p={}", rng.pick(&paths))),
                 13 => out.push(format!("c07 hop objs p={}", rng.pick(&paths))),
                 14 => out.push(format!("c07 hop exists p={}", if rng.chance(1, 2) { child } else { parent })),
+                // the metadata of a node erased through the API of its kind (group or array; `none` where there is no node)
+                15 | 16 => out.push(format!("c07 hop rmmeta p={}", if rng.chance(1, 3) { child } else { rng.pick(&paths).clone() })),
                 _ => out.push(format!("c07 hop tree p={}", rng.pick(&paths))),
             }
         }
